@@ -142,6 +142,7 @@ func (ex *Exec) runVC() {
 	ex.loops = loops
 	order := topoOrder(fn, back)
 
+	ex.resetGhosts(ex.entry, con)
 	// assume preconditions
 	envPre := ex.funcEnv(ex.entry)
 	envPre.fn = nil
@@ -903,4 +904,25 @@ func verifyLemma(P *Program, lem *Contract) (g *Gen, err error) {
 	}
 	g.includeAxioms(ex)
 	return g, nil
+}
+
+// resetGhosts: `resets name` = ghost assignment name := {} executed at function entry (and, symmetrically, at every call
+// site before the precondition is asserted). Ghost state does not influence execution, so this is a specification
+// statement, not an assumption.
+func (ex *Exec) resetGhosts(st *State, con *Contract) {
+	g := ex.g
+	for _, name := range con.Resets {
+		gv, ok := g.P.GhostVars[name]
+		if !ok {
+			unsup("resets %s: not a ghost var", name)
+		}
+		env := &Env{g: g, ex: ex, vars: map[string]Val{}, st: st, old: st, pkgPath: gv.Pkg}
+		gt := env.resolveTypeIn(*gv.GType, gv.Pkg)
+		if gt.Set == nil {
+			unsup("resets %s: only set-typed ghost vars can be reset", name)
+		}
+		comp := "GV:" + name
+		g.compDecl(comp, g.sortOfG(gt))
+		g.set(st, comp, fmt.Sprintf("((as const %s) false)", g.sortOfG(gt)))
+	}
 }
